@@ -4,7 +4,8 @@ Generated: a fake repository of five packages (random KEYWORDS / LICENSE / slots
 stack (ACCEPT_KEYWORDS, ACCEPT_LICENSE, package.mask incl. `-atom` removals, package.unmask,
 package.accept_keywords), repository masks, a user config dir (package.mask, package.unmask,
 package.accept_keywords with specific / `~arch` / `*` / `~*` / `**` / empty entries, package.license with names,
-`@group`, `-@group`, `*`, `-*`), make.conf-style ACCEPT_LICENSE / ACCEPT_KEYWORDS and a nested license_groups file.
+`@group`, `-@group`, `*`, `-*`), make.conf-style ACCEPT_LICENSE / ACCEPT_KEYWORDS and a license_groups file whose
+nesting depth (0-3), listing order (outer-first / inner-first / mixed) and sibling groups are generated.
 A real `domain` is built over it (vf/gen/domaincfg.py).
 
 Oracle: a reference evaluator that follows the property statement literally:
@@ -81,7 +82,7 @@ PROFILE_KEYS = sorted(KEYS)
 ALL_USER_KEYS = sorted(USER_KEYS)
 
 LIC = ["GPL-2", "MIT", "BSD", "EULA", "CC0"]
-GROUPS = ["FREE", "BSDS", "EULAS"]
+GROUPS = ["FREE", "FREE", "L1", "L2", "EULAS", "ALL"]  # names from domaincfg.gen_license_group_defs (FREE = outermost)
 LICENSE_STRINGS = [
     "GPL-2", "MIT", "EULA", "CC0", "MIT BSD", "GPL-2 EULA", "|| ( MIT EULA )", "|| ( EULA CC0 )",
     "GPL-2 || ( BSD EULA )", "|| ( ( MIT BSD ) EULA )", "|| ( ( GPL-2 EULA ) ( CC0 BSD ) )", "",
@@ -332,7 +333,7 @@ def run_case(ctx, case, record=True):
             kinds.add("mask_negation")
         if len(spec["profiles"]) > 1:
             kinds.add("two_nodes")
-        cl = sorted(kinds) + (["both_outcomes"] if len(set(exp)) == 2 else [])
+        cl = sorted(kinds) + (["both_outcomes"] if len(set(exp)) == 2 else []) + list(spec.get("_group_tags", ()))
         ctx.case(case, nontrivial=len(kinds - {"two_nodes"}) >= 2 and len(set(exp)) == 2, classes=cl, key=core.jdump(case), n=n)
 
     def body():
@@ -386,7 +387,7 @@ def run_case(ctx, case, record=True):
 
 
 def _strip_private(spec):
-    s = dict(spec)
+    s = {k: v for k, v in spec.items() if not k.startswith("_")}
     s["profiles"] = [{k: v for k, v in n.items() if not k.startswith("_")} for n in spec["profiles"]]
     return s
 
@@ -408,14 +409,9 @@ def gen_lic_tokens(t, mx=4):
 
 
 def gen_license_groups(t):
-    free = t.subset(["GPL-2", "MIT", "BSD", "CC0"], 1, 3)
-    bsds = t.subset(["BSD", "MIT"], 1, 2)
-    eulas = t.subset(["EULA", "CC0"], 1, 2)
-    lines = ["BSDS " + " ".join(bsds), "EULAS " + " ".join(eulas)]
-    lines.append("FREE " + " ".join(free) + (" @BSDS" if t.take(2) else ""))
-    if t.take(4) == 0:
-        lines.append("ALL @FREE @EULAS")
-    return "\n".join(lines) + "\n"
+    """nested license groups: depth 0-3, listing order outer-first / inner-first / mixed, sibling groups"""
+    defs, tags = domaincfg.gen_license_group_defs(t, ["GPL-2", "MIT", "BSD", "CC0", "EULA"])
+    return "".join(n + " " + " ".join(m) + "\n" for n, m in defs), tags
 
 
 def gen_kw_entry_tokens(t):
@@ -492,7 +488,9 @@ def gen_case(t):
     pkgs = []
     for cpv, slot in PKGS:
         pkgs.append({"cpv": cpv, "slot": slot, "keywords": t.pick(KEYWORD_SETS), "license": t.pick(LICENSE_STRINGS)})
-    spec = {"profiles": nodes, "conf": conf, "settings": settings, "pkgs": pkgs, "license_groups": gen_license_groups(t)}
+    groups_text, group_tags = gen_license_groups(t)
+    spec = {"profiles": nodes, "conf": conf, "settings": settings, "pkgs": pkgs, "license_groups": groups_text,
+            "_group_tags": group_tags}
     if t.take(3) == 0:
         spec["repo_masks"] = t.subset(PROFILE_KEYS, 1, 2)
     return {"kind": "vis", "spec": spec}
@@ -573,7 +571,7 @@ def _variants(x, path=()):
                 yield x[:i] + [v] + x[i + 1:]
     elif isinstance(x, dict):
         for k in sorted(x):
-            if k in ("kind", "spec", "pkgs", "profiles", "cpv", "slot", "keywords", "license"):
+            if k in ("kind", "spec", "pkgs", "profiles", "cpv", "slot", "keywords", "license", "_group_tags"):
                 continue
             d = dict(x)
             del d[k]
